@@ -227,6 +227,25 @@ Fixpoint remove_bytes (x : bytes) (l : list bytes) : list bytes :=
   | y :: l' => if bytes_eqb y x then remove_bytes x l' else y :: remove_bytes x l'
   end.
 
+Fixpoint count_bytes (x : bytes) (l : list bytes) : nat :=
+  match l with
+  | [] => O
+  | y :: l' => if bytes_eqb y x then S (count_bytes x l') else count_bytes x l'
+  end.
+
+(* The phony self-reference filter (manifest_parser.cc) on inputs_ / order_only_deps_:
+   order_only_deps_ -= count(inputs_.end() - order_only_deps_, inputs_.end(), out), then every
+   occurrence of [out] is erased from inputs_.  (implicit_deps_ is 0 where the filter applies.) *)
+Definition phony_filter (out : bytes) (ins : list bytes) (order_only : nat) : list bytes * nat :=
+  (remove_bytes out ins,
+   (order_only - count_bytes out (skipn (length ins - order_only) ins))%nat).
+
+(* The filter as it was before the fix "adjust order_only_deps_ when the phony self-reference
+   filter erases inputs": the counter was left alone (kept as documentation, see
+   ManifestProofs.phony_filter_legacy_corrupts_kinds; not used by the model). *)
+Definition phony_filter_legacy (out : bytes) (ins : list bytes) (order_only : nat)
+  : list bytes * nat := (remove_bytes out ins, order_only).
+
 (* Edge::maybe_phonycycle_diagnostic *)
 Definition maybe_phonycycle (r : rule) (outs : list bytes) (implicit_outs implicit : nat) : bool :=
   r_phony r && Nat.eqb (length outs) 1 && Nat.eqb implicit_outs 0 && Nat.eqb implicit 0.
@@ -271,11 +290,11 @@ Definition parse_edge (fuel : nat) (e : env) (lx : lexer) (ps : pstate) : pres (
     do out_paths <- add_outs lx11 st1 eenv (ps_outs ps) outs [];
     do in_paths <- eval_paths lx11 st1 eenv ins;
     do val_paths <- eval_paths lx11 st1 eenv vals;
-    (* phony self-reference filter: inputs_ shrinks, the two counters are left alone *)
-    let in_paths' :=
+    (* phony self-reference filter *)
+    let '(in_paths', order_only') :=
       if maybe_phonycycle rule out_paths implicit_outs implicit
-      then remove_bytes (hd [] out_paths) in_paths else in_paths in
-    let edge1 := mkEdge rule eenv the_pool out_paths implicit_outs in_paths' implicit order_only
+      then phony_filter (hd [] out_paths) in_paths order_only else (in_paths, order_only) in
+    let edge1 := mkEdge rule eenv the_pool out_paths implicit_outs in_paths' implicit order_only'
                         val_paths [] in
     do dyndep <- lres_to_pres (get_unescaped st1 edge1 s_dyndep);
     do edge2 <-
@@ -283,7 +302,7 @@ Definition parse_edge (fuel : nat) (e : env) (lx : lexer) (ps : pstate) : pres (
         else
           let dd := canon dyndep in
           if mem_bytes dd in_paths' then
-            P_ok (mkEdge rule eenv the_pool out_paths implicit_outs in_paths' implicit order_only
+            P_ok (mkEdge rule eenv the_pool out_paths implicit_outs in_paths' implicit order_only'
                          val_paths dd)
           else lex_error lx11 E_dyndep_not_input);
     P_ok (lx11, mkPS st1 (ps_pools ps) (edge2 :: ps_edges ps)
@@ -294,11 +313,15 @@ Definition parse_edge (fuel : nat) (e : env) (lx : lexer) (ps : pstate) : pres (
 (* ---------- the statement loop, include/subninja ---------- *)
 Definition loader := lexer -> bytes -> env -> pstate -> pres pstate.
 
-(* ManifestParser::ParseFileInclude *)
-Definition parse_include (incl : loader) (new_scope : bool) (e : env) (lx : lexer) (ps : pstate)
-  : pres (lexer * pstate) :=
+(* kMaxIncludeDepth *)
+Definition max_include_depth : nat := 200.
+
+(* ManifestParser::ParseFileInclude in the parser object whose include_depth_ is [depth] *)
+Definition parse_include (incl : loader) (depth : nat) (new_scope : bool) (e : env) (lx : lexer)
+           (ps : pstate) : pres (lexer * pstate) :=
   do (es, lx1) <- p_read_eval true lx;
   let path := eval_in (ps_store ps) e es in
+  if Nat.leb max_include_depth depth then lex_error lx1 E_include_depth else
   let (sub_env, ps1) :=
     if new_scope
     then (length (ps_store ps) :: e, ps_with_store ps (ps_store ps ++ [empty_scope]))
@@ -308,39 +331,42 @@ Definition parse_include (incl : loader) (new_scope : bool) (e : env) (lx : lexe
   P_ok (lx2, ps2).
 
 (* ManifestParser::Parse : returns the final lexer (for its version fields) and the state *)
-Fixpoint parse_loop (fuel total : nat) (incl : loader) (e : env) (lx : lexer) (ps : pstate)
+Fixpoint parse_loop (fuel total : nat) (incl : loader) (depth : nat) (e : env) (lx : lexer) (ps : pstate)
   : pres (lexer * pstate) :=
   match fuel with
   | O => P_err (lx_file lx) O E_loop_fuel
   | S f =>
     do (tok, lx1) <- p_read_token lx;
     match tok with
-    | T_POOL => do (lx2, ps2) <- parse_pool total e lx1 ps; parse_loop f total incl e lx2 ps2
-    | T_BUILD => do (lx2, ps2) <- parse_edge total e lx1 ps; parse_loop f total incl e lx2 ps2
-    | T_RULE => do (lx2, ps2) <- parse_rule total e lx1 ps; parse_loop f total incl e lx2 ps2
-    | T_DEFAULT => do (lx2, ps2) <- parse_default total e lx1 ps; parse_loop f total incl e lx2 ps2
+    | T_POOL => do (lx2, ps2) <- parse_pool total e lx1 ps; parse_loop f total incl depth e lx2 ps2
+    | T_BUILD => do (lx2, ps2) <- parse_edge total e lx1 ps; parse_loop f total incl depth e lx2 ps2
+    | T_RULE => do (lx2, ps2) <- parse_rule total e lx1 ps; parse_loop f total incl depth e lx2 ps2
+    | T_DEFAULT => do (lx2, ps2) <- parse_default total e lx1 ps; parse_loop f total incl depth e lx2 ps2
     | T_IDENT =>
       do (name, val, lx2) <- parse_let (lex_unread lx1);
       let value := eval_in (ps_store ps) e val in
       if bytes_eqb name s_ninja_required_version then
         let (major, minor) := parse_version value in
         if version_fatal major minor then P_err [] O E_fatal_version
-        else parse_loop f total incl e (lx_set_version lx2 major minor)
+        else parse_loop f total incl depth e (lx_set_version lx2 major minor)
                         (ps_with_store ps (add_binding (ps_store ps) e name value))
-      else parse_loop f total incl e lx2 (ps_with_store ps (add_binding (ps_store ps) e name value))
+      else parse_loop f total incl depth e lx2 (ps_with_store ps (add_binding (ps_store ps) e name value))
     | T_INCLUDE =>
-      do (lx2, ps2) <- parse_include incl false e lx1 ps; parse_loop f total incl e lx2 ps2
+      do (lx2, ps2) <- parse_include incl depth false e lx1 ps; parse_loop f total incl depth e lx2 ps2
     | T_SUBNINJA =>
-      do (lx2, ps2) <- parse_include incl true e lx1 ps; parse_loop f total incl e lx2 ps2
+      do (lx2, ps2) <- parse_include incl depth true e lx1 ps; parse_loop f total incl depth e lx2 ps2
     | T_ERROR => lex_error lx1 (if lx_last_is_tab lx1 then E_tabs else E_lexing)
     | T_TEOF => P_ok (lx1, ps)
-    | T_NEWLINE => parse_loop f total incl e lx1 ps
+    | T_NEWLINE => parse_loop f total incl depth e lx1 ps
     | T_COLON | T_EQUALS | T_INDENT | T_PIPE | T_PIPE2 | T_PIPEAT => lex_error lx1 (E_unexpected tok)
     end
   end.
 
-(* Parser::Load for the parser object at include depth [depth]; [parent] is the lexer of the
-   including parser (None for the root file).  [fm] is the file system. *)
+(* Parser::Load for the parser object at include depth [depth] (its include_depth_: the
+   sub-parser of a parser is created once, with include_depth_ + 1, and reused); [parent] is the
+   lexer of the including parser (None for the root file).  [fm] is the file system.
+   [ifuel] only makes the recursion structural: ParseFileInclude refuses to go below depth 200,
+   so with ifuel >= 201 the fuel is never what stops the recursion. *)
 Fixpoint load (ifuel : nat) (fm : bytes -> option bytes) (depth : nat) (parent : option lexer)
          (file : bytes) (e : env) (ps : pstate) : pres pstate :=
   match ifuel with
@@ -358,7 +384,7 @@ Fixpoint load (ifuel : nat) (fm : bytes -> option bytes) (depth : nat) (parent :
       let '(major, minor, checked) := nth depth (ps_subflags ps) default_flags in
       let lx := lex_start file contents major minor checked in
       let n := S (S (length contents)) in
-      do (lx', ps') <- parse_loop n n (fun plx => load f fm (S depth) (Some plx)) e lx ps;
+      do (lx', ps') <- parse_loop n n (fun plx => load f fm (S depth) (Some plx)) depth e lx ps;
       P_ok (mkPS (ps_store ps') (ps_pools ps') (ps_edges ps') (ps_nodes ps') (ps_outs ps')
                  (ps_defaults ps')
                  (set_nth_flags (ps_subflags ps') depth (lx_major lx', lx_minor lx', lx_checked lx')))
